@@ -1,6 +1,7 @@
 /-
   C08 — Per-block address-field information admits every approvable address.
 -/
+import TealerModel.Props.TieFlow
 import TealerModel.Props.Common
 import TealerModel.Props.Tie
 import TealerModel.Props.TieMatchers
@@ -62,5 +63,13 @@ theorem C08_tie_matcher (intcs : Option (List Nat)) (ins : List Ins) (key : Key)
     addrSingle intcs (constructAst ins) key p =
       Generated.getAssertedTxnGtxn (TieM.envOf intcs) (TieM.envOf intcs) key (treeOf (constructAst ins) (n + 3) (some (p, o))) :=
   TieM.addr_tie intcs _ (TieM.arity_constructAst ins) key n p o
+
+/-- the block-level constraint of this analysis is computed by the Python's own `_block_level_constraints`, translated on this
+    run (instance of `TieF.block_tie`; edge constraints and transfer functions: `C01_tie_constraints`, `C01_tie_transfer_functions`) -/
+theorem C08_tie_block_constraint (intcs : Option (List Nat)) (b : FBlock) (key : Key) (n : Nat) :
+    blockConstraint addrAnalysis intcs b key =
+      Generated.blockLevelConstraints (TieM.envOf intcs) addrAnalysis.dom (addrAnalysis.univ key.base)
+        (TieF.gaOf addrAnalysis intcs (constructAst b.ins) key (b.ins.length + 1)) (TieM.envOf intcs) key (TieF.fblockView b n) :=
+  TieF.block_tie addrAnalysis intcs b key n
 
 end Tealer.C08
